@@ -124,6 +124,9 @@ func VH_FieldTotal() {
 	n := vLen("n", vParam("maxlen", 3))
 	t := vTypes[vParam("type", 0)]
 	v := vASCII("v", n)
+	// concrete non-ASCII bytes after the symbolic ASCII part (the regexp summary needs symbolic bytes
+	// to be ASCII, concrete ones may be anything)
+	v += []string{"", "\xc3\xa9", "\xff", "\x80\xfe", "\xe2\x82\xac"}[vParam("nonascii", 0)]
 	var field string
 	switch vChoose("quote", 3) {
 	case 0:
@@ -349,4 +352,25 @@ func VH_HeaderBad() {
 	vAssert(err != nil && m == nil, "C04/malformed-header-accepted")
 	m, err = ParseLogLine("type=SYSCALL msg=" + text)
 	vAssert(err != nil && m == nil, "C04/malformed-header-accepted")
+}
+
+
+func init() { vEntries["VH_HexInternals"] = VH_HexInternals }
+
+// VH_HexInternals (auxiliary, uses unexported functions): the hex and sockaddr decoders on every
+// byte string of n bytes, all 256 values per byte.
+func VH_HexInternals() {
+	n := vLen("n", vParam("maxlen", 4))
+	s := vStr("s", n)
+	switch vParam("fn", 0) {
+	case 0:
+		out, err := hexToString(s)
+		vAssert(err != nil || len(out) <= n/2, "C05/hex-decoder-result")
+	case 1:
+		out, err := hexToStrings(s)
+		vAssert(err != nil || len(out) >= 1, "C05/hex-decoder-result")
+	case 2:
+		m, err := parseSockaddr(s)
+		vAssert((err != nil) == (m == nil), "C05/error-and-message-disagree")
+	}
 }
